@@ -31,6 +31,8 @@ type ScriptConfig struct {
 	// Exotic: unusual white space in gaps; BOM: a UTF-8 byte-order mark at the very start.
 	Exotic bool
 	BOM    bool
+	// Fat: one statement of several KiB spread over many lines (a long `in (...)` list).
+	Fat bool
 }
 
 // DrawScriptConfig draws a swarm configuration.
@@ -46,6 +48,7 @@ func DrawScriptConfig(r *prng.Rand) ScriptConfig {
 	if r.Chance(1, 40) {
 		c.MaxStmts = 0
 	}
+	c.Fat = r.Chance(1, 40)
 	c.Exotic = r.Chance(1, 8)
 	c.BOM = r.Chance(1, 50)
 	if r.Chance(1, 25) {
@@ -95,6 +98,19 @@ func GenScript(r *prng.Rand, cfg ScriptConfig) *Script {
 			st = Stmt{Kind: KCommentOnly, Comment: "//" + commentBodies[r.Intn(len(commentBodies))]}
 		}
 		sc.Stmts = append(sc.Stmts, st)
+	}
+	if cfg.Fat && len(sc.Stmts) > 0 {
+		// a statement of several KiB, no line of which is long
+		ts := toks(g.pick(Tables), "|", "where", g.pick(Columns), "in", "(")
+		n := r.Range(600, 3000)
+		for i := 0; i < n; i++ {
+			if i > 0 {
+				ts = append(ts, t(","))
+			}
+			ts = append(ts, t(Numbers[r.Intn(len(Numbers))]))
+		}
+		ts = append(ts, t(")"))
+		sc.Stmts[r.Intn(len(sc.Stmts))] = Stmt{Kind: KQuery, Toks: ts}
 	}
 	// Make the last statement a query more often: the trailing path is a separate code path.
 	if len(sc.Stmts) > 0 && r.Chance(1, 2) {
